@@ -14,6 +14,18 @@ _U = TypeVar('_U', bound=base.RawTreeModel)
 _V = TypeVar('_V')
 
 
+def check_reusable(values: Iterable[base.RawModel]) -> None:
+    """Raises if any of values cannot be detached, without detaching anything."""
+    seen = set[int]()
+    for value in values:
+        token_store = value.token_store
+        if id(value) in seen or token_store and (
+                value.first_token is not token_store.get_first() or
+                value.last_token is not token_store.get_last()):
+            raise ValueError('Cannot reuse node. Consider making a copy.')
+        seen.add(id(value))
+
+
 def replace_node(node: _M, repl: _M) -> None:
     token_store = node.token_store  # backup because the RawTokenModel.token_store may disappear
     if not token_store:
@@ -196,6 +208,7 @@ class RepeatedNodeWrapper(MutableSequence[_M]):
             return
         assert isinstance(value, Iterable)
         values = list(value)
+        check_reusable(values)
         r = indexes.range_from_index(index, len(self._repeated.items))
         separators_before_last = (
             self._repeated.token_store.get_prev(self._repeated.items[0].first_token)
@@ -241,6 +254,7 @@ class RepeatedNodeWrapper(MutableSequence[_M]):
 
     def extend(self, values: Iterable[_M]) -> None:
         values = list(values)
+        check_reusable(values)
         index = len(self._repeated.items)
         self._insert_tokens(index, values)
         for value in values:
